@@ -10,7 +10,7 @@ from .props_zone import site_sig, CivilOracle, clamp
 from .props_fixed import spec_abbr, spec_name
 
 THEOREMS = {'C07': ['Cctz.C07.int_roundtrip', 'Cctz.C07.field2_roundtrip', 'Cctz.C07.offset_roundtrip', 'Cctz.C07.offset_24h_counterexample',
-                    'Cctz.C07.fraction_roundtrip', 'Cctz.C07.percent_s_roundtrip'],
+                    'Cctz.C07.fraction_roundtrip', 'Cctz.C07.percent_s_roundtrip', 'Cctz.C07Whole.full_roundtrip'],
             'C08': ['Cctz.C08.constants', 'Cctz.C08.format64', 'Cctz.C08.format64_year4', 'Cctz.C08.format02d', 'Cctz.C08.formatOffset', 'Cctz.C08.literal',
                     'Cctz.C08.percent', 'Cctz.C08.rfc3339', 'Cctz.C08.format_safe'],
             'C09': ['Cctz.C09.constants', 'Cctz.C09.parseInt_spec', 'Cctz.C09.parseInt_counterexample', 'Cctz.C09.field_ranges', 'Cctz.C09.subseconds',
@@ -230,7 +230,7 @@ def run_C08(chk):
         return chk.finish()
     rng = chk.rng
     zones = make_zones(rng, 6 if scale == 'quick' else 9)
-    per = 1500 if scale == 'quick' else 40000
+    per = 6000 if scale == 'quick' else 60000
     blocks = []; meta = []
     for z in zones:
         b = [z.line]; m = [None]
@@ -294,14 +294,14 @@ def gen_lossless(rng, off_has_seconds):
 
 
 def run_C07(chk):
-    chk.prepare_model('Cctz.Properties.C07', THEOREMS['C07'])
+    chk.prepare_model(['Cctz.Properties.C07', 'Cctz.Properties.C07Whole'], THEOREMS['C07'])
     exe = chk.harness('san')
     scale = chk.tier if not chk.broken else 'thorough'
     if exe is None or not getattr(chk, 'driver_ok', False):
         return chk.finish()
     rng = chk.rng
     zones = make_zones(rng, 6 if scale == 'quick' else 9)
-    per = 1200 if scale == 'quick' else 40000
+    per = 4000 if scale == 'quick' else 50000
     blocks = []; meta = []
     for z in zones:
         b = [z.line]; m = [None]
@@ -380,7 +380,7 @@ def run_C09(chk):
     rng = chk.rng
     shipped = dict(T.shipped_zones())
     zs = [Z.Zone(n, shipped[n], 'shipped') for n in ('America/New_York', 'Australia/Lord_Howe', 'UTC', 'Asia/Kathmandu') if n in shipped] + Z.synthetic_zones()[:2]
-    per = 2500 if scale == 'quick' else 60000
+    per = 8000 if scale == 'quick' else 80000
     blocks = []; meta = []
     for zi, zn in enumerate(zs):
         orc = CivilOracle(zn)
